@@ -23,12 +23,12 @@ def _gate(fl):
         # (the scratch copy reroutes atomic.AddInt32 to vsys.AddInt32, same operation plus the schedule hook)
         if f["kind"] == "call" and (f["expr"].startswith("atomic.") or f["expr"] == "vsys.AddInt32"):
             atom.setdefault(f["line"], []).append((f["expr"].replace("vsys.", "atomic."), f["closure"]))
-    acc = [f for f in fl if f["kind"] == "access" and f["expr"] == "recv.readEvents"]
+    acc = [f for f in fl if f["kind"] == "access" and f["expr"] in ("recv.readEvents", "recv.hup")]
     if not acc:
         problems.append("AsyncRead: no access to recv.readEvents (predicate vacuous)")
     for f in acc:
         if f["line"] not in atom:
-            problems.append("AsyncRead: readEvents accessed at line %d outside an atomic operation" % f["line"])
+            problems.append("AsyncRead: %s accessed at line %d outside an atomic operation" % (f["expr"], f["line"]))
     gate_ops = sorted({e for l in atom.values() for (e, c) in l if c == 0})
     task_ops = sorted({e for l in atom.values() for (e, c) in l if c != 0})
     if "atomic.AddInt32" in gate_ops:
